@@ -1125,3 +1125,15 @@ Proof.
   unfold pkg_ok_with. unfold c_acyclic, c_static in *.
   rewrite H0, H1, H2, H5, H6, H7. reflexivity.
 Qed.
+
+(* F20e: an enum value that sanitises to a _sunder_ member name (`_A_`): Enum refuses the class *)
+Definition n_Enum : str := [69;110;117;109]%N.
+Definition n_enum : str := [101;110;117;109]%N.
+Definition n_sunder : str := [95;65;95]%N.
+Definition w_F20e : package :=
+  [ mkMod [n_p] [];
+    mkMod [n_p; n_ev] [FromImport [n_enum] [(n_Enum, n_Enum)];
+                       ClassDef n_Ev [AName n_Enum] [CAssign n_sunder (AStr []); CAssign n_B (AStr [])]] ].
+Lemma refuted_F20e :
+  c_static builtin_names w_F20e = false /\ c_parses w_F20e = true /\ failed_with (ex w_F20e [n_p; n_ev]) EValue.
+Proof. vm_compute. repeat split; reflexivity. Qed.
